@@ -458,6 +458,46 @@ def asm_campaign(ctx):
     ctx.coverage['assembled_files_through_model'] = len(terms)
 
 
+# ---- large-window family (python side only: pools of millions of words do not go through Coq) ------------
+MIB = 1 << 20
+
+
+def large_window(ctx):
+    """version 3: the same pseudo-random block (>= 5 MiB, and >= 9 MiB at preset 9) is the data of two segments, so the
+    compressor emits a match farther back than small decoder dictionaries reach; the round trip must still hold"""
+    rng = ctx.rng
+    presets = (6,) if ctx.quick() else tuple(p for p in range(10) if p != 9)
+    cases = [{'w': 64, 'preset': p, 'block_bytes': 5 * MIB + 8 * rng.randrange(0, 4096)} for p in presets]
+    cases.append({'w': 64, 'preset': 9, 'block_bytes': 9 * MIB + 8 * rng.randrange(0, 4096)})
+    cases += [{'w': 32, 'preset': p, 'block_bytes': 5 * MIB + 8 * rng.randrange(0, 4096)} for p in ((6,) if ctx.quick() else (6, 9))]
+    if not ctx.quick():
+        cases.append({'w': 64, 'preset': 9, 'block_bytes': 5 * MIB})
+    for c in cases:
+        c['seed'] = rng.getrandbits(64)
+        c['second_start'] = (1 << 40) if c['w'] == 64 else (1 << 26)
+    outs = fw.run_workers_parallel(ctx, 'fjm', [{'mode': 'large', 'cases': [c]} for c in cases])
+    for c, (o,) in zip(cases, outs):
+        n = o['words']
+        ctx.count(('large-window', c['w'], c['preset'], c['seed'], c['block_bytes']), True)
+        ctx.hist('large_window', f'w{c["w"]}-preset{c["preset"]}-{c["block_bytes"] // MIB}MiB:' +
+                 ('write-failed' if o['write'] else ('image', 'read-error', 'other')[o['cls']]))
+        replay = {'large_window_case': c, 'observed': o, 'required': 'the written file is read back with both segments holding '
+                  'exactly the block', 'how': './check C06 --replay <this file>'}
+        if o['write'] != 0:
+            ctx.violation({'kind': 'writer-refuses-representable-input' if o['write'] == 1 else 'writer-raw-exception',
+                           'family': 'large-window', 'preset': c['preset']},
+                          f'C06 large-window w={c["w"]} preset={c["preset"]}: the writer failed on a representable input: {o.get("exc")}', replay)
+        elif o['cls'] != 0:
+            ctx.violation({'kind': 'reader-refuses-writer-output', 'family': 'large-window', 'preset': c['preset']},
+                          f'C06 large-window w={c["w"]} preset={c["preset"]} block={c["block_bytes"]} bytes x2: the Reader refuses the '
+                          f'file the Writer produced ({o.get("msg")})', replay)
+        elif o['segs'] != [[0, n], [c['second_start'], n]] or o['zeros'] or not o['words_equal']:
+            ctx.violation({'kind': 'roundtrip-differs', 'family': 'large-window'},
+                          f'C06 large-window w={c["w"]} preset={c["preset"]}: the image read back differs from the declared one', replay)
+    ctx.sample({'large_window_case': cases[0], 'observed': outs[0][0]})
+    return cases, outs
+
+
 # ---- campaign --------------------------------------------------------------------------------------
 def run_cases(ctx, cases):
     n = len(cases)
@@ -533,15 +573,21 @@ def run(ctx):
                                  'segs': o['read'].get('segs'), 'zeros': o['read'].get('zeros')}})
     compare(ctx, 'c06', cases, obs, terms)
     asm_campaign(ctx)
+    large_window(ctx)
     ctx.coverage['rule'] = ('random Writer call sequences (interleaved or pool-first with shared/odd-offset data ranges, data '
                             'shorter than the segment, zero tails 996..1004 and lazy, starts near 2^14 multiples and at '
                             '2^40..2^64, re-basing wrap-around, refused calls, unrepresentable calls) x w in {8,16,32,64} x '
                             'versions 0..3 x lzma presets 0..9; plus generated stl-free programs and two repository programs assembled '
-                            'by the real assembler in versions 0..3 (images compared across versions, files read by the model); '
+                            'by the real assembler in versions 0..3 (images compared across versions, files read by the model); plus the '
+                            'large-window family (version 3, one >= 5 MiB / >= 9 MiB pseudo-random block as the data of two segments, '
+                            'real Writer + Reader, spec evaluated in python only); '
                             'distinct = distinct (w, version, flags, calls) or (w, source); '
                             'non-trivial = written, read back as an image with >= 1 segment')
     ctx.assumptions += ['liblzma is an oracle: the model is given the real codec\'s answers (compress on the packed pool, '
                         'decompress on the payload); theorems assume decompress(compress x) = x',
+                        'that liblzma premise is additionally exercised on the real code with match distances above every '
+                        "preset's dictionary size that a smaller decoder window would miss (large-window family: repeats at "
+                        '>= 5 MiB, and >= 9 MiB at preset 9; all presets in the thorough tier)',
                         'Z.of_nat(len(pool)), len(segments) < 2^64 (fits_u64) is a hypothesis of the theorems']
 
 
@@ -601,6 +647,15 @@ def compare(ctx, name, cases, obs, terms):
 def replay(ctx, path):
     blob = json.loads(open(path).read())
     rp = blob['replay']
+    if 'large_window_case' in rp:
+        c = rp['large_window_case']
+        o = fw.run_worker(ctx, 'fjm', {'mode': 'large', 'cases': [c]})[0]
+        ok = o['write'] == 0 and o['cls'] == 0 and o.get('words_equal') and not o['zeros']
+        print(f'[C06] replay of {path}: large-window w={c["w"]} preset={c["preset"]} block={c["block_bytes"]} bytes in two segments')
+        print(f'  observed: {o}')
+        print('  required: written, and read back with both segments holding exactly the block')
+        print('  the spec holds on this input now' if ok else '  VIOLATION reproduced')
+        return 0 if ok else 1
     if 'case' not in rp:
         print(f'[C06] replay: {blob["what"]}\n{json.dumps(rp)[:3000]}')
         return 1
